@@ -14,4 +14,21 @@ def run(tier, replay=None):
     is_elab_replay = bool(replay) and "ops" in __import__("json").load(open(replay)).get("case", {})
     if not replay or is_elab_replay:
         E.run(out, build, problems, PROP, tier, ['spec_C17', 'own_lists_everywhere'], E.default_gen, 500, 10000, RULE_E, replay=replay, known={})
+    if not replay:
+        # a recorded finding outside the case language of the histories (a class member that is an alias of another
+        # class's function): its witness is run as it stands
+        import common as C
+        res = C.run_impl("impl_probe.py", {"probes": ["kf_C17_alias"]})
+        out.coverage["witness_probes"] = res
+        kf = C.load_known_findings()
+        listed = {f["id"]: f for f in kf.get("findings", []) if f["property"] == PROP}
+        r = res.get("kf_C17_alias", {})
+        if r.get("reproduced"):
+            if "kf_C17_alias" in listed:
+                out.known_finding(listed["kf_C17_alias"]["what"])
+            else:
+                out.violation("defining a class whose member is an alias of another class's method changed that class's "
+                              "contracts", {"probe": "kf_C17_alias", "result": r, "script": "harness/impl_probe.py"})
+        elif r.get("reproduced") is None:
+            out.violation("the witness probe kf_C17_alias did not run: %s" % r, {"probe": r}, found_input=False)
     return out.finish()
